@@ -20,6 +20,10 @@ let model op args =
              | Some (rest, v) -> "ok " ^ hex_of_bytes rest ^ " " ^ hex_of_bytes v
              | None -> "err")
   | "ebp" -> hex_of_bytes (bytes_of_hex (a0 ()) @ encode_bytes (bytes_of_hex (List.nth args 1)))
+  | "u64" -> hex_of_n (u64_of_int (z_of_hex (a0 ())))
+  | "i64" -> hex_of_z (int_of_u64 (n_of_hex (a0 ())))
+  | "icx" -> hex_of_n (int_to_cmp_xor (z_of_hex (a0 ())))
+  | "cux" -> hex_of_z (cmp_to_int_xor (n_of_hex (a0 ())))
   | "icu" -> hex_of_n (int_to_cmp (z_of_hex (a0 ())))
   | "cui" -> hex_of_z (cmp_to_int (n_of_hex (a0 ())))
   | "eu" -> hex_of_bytes (encode_uint (n_of_hex (a0 ())))
